@@ -5,7 +5,7 @@ cd "$(dirname "$0")/.."
 WT=/tmp/seedrun
 [ -d $WT ] || git -C /repo worktree add -q --detach $WT HEAD
 git -C $WT checkout -q --detach $(git -C /repo rev-parse HEAD); git -C $WT checkout -q -- .
-names="$@"; [ -z "$names" ] && names=$(ls seeded | grep -E '^C[0-9]+-m[0-9]+$')
+names="$@"; [ -z "$names" ] && names=$(ls seeded | grep -E '^C[0-9]+-(r[0-9]+)?m[0-9]+$')
 for n in $names; do
   p=${n%%-*}
   git -C $WT checkout -q -- . ; git -C $WT apply "$PWD/seeded/$n/patch.diff" || { echo "$n: patch does not apply"; continue; }
